@@ -82,11 +82,11 @@ def chain(draw, cid="A", nmin=1, nmax=6, wild=False, hyd=None, variants=0.2, sta
         d["shuffle"] = draw(st.integers(1, 1000))  # atoms of a residue listed in an unusual order
     if draw(st.integers(0, 5)) == 0:
         d["hetres"] = draw(st.integers(0, 15))  # one standard residue written with HETATM records
-    if draw(st.integers(0, 5)) == 0:
+    if oxt is None and draw(st.integers(0, 5)) == 0:
         # heavy atoms that the residue's topology does not define (must be reported when deleted)
         d["extra"] = [[draw(st.integers(0, 15)), draw(st.sampled_from(["P", "O1P", "XE1", "OX9", "CM"]))]
                       for _ in range(draw(st.integers(1, 3)))]
-        if oxt is None and draw(st.integers(0, 3)) > 0:
+        if draw(st.integers(0, 3)) > 0:
             d["oxt"] = False  # pdb2pqr deletes undefined atoms only while repairing: something must be missing
     if d["start"] + n > 9999:  # the PDB residue-number column has 4 characters
         d["start"] = 9999 - n
